@@ -35,6 +35,9 @@ pub struct Weights {
     pub drop_reopen: u32,
     pub bulk: u32,
     pub fault: u32,
+    /// close/drop + reopen while a transaction is open (must behave as ROLLBACK: C07)
+    #[serde(default)]
+    pub reopen_in_txn: u32,
 }
 
 #[derive(Clone, Debug, Serialize, Deserialize)]
@@ -202,7 +205,14 @@ impl Gen {
                     .filter_map(|r| if let Some(Val::Int(i)) = r.get(ci) { Some(*i) } else { None })
                     .max()
                     .unwrap_or(0);
-                Val::Int(mx.max(sw.key_domain) + 1 + pending.len() as i64)
+                let cap = if c.ty == Ty::Int { i32::MAX as i64 - 64 } else { i64::MAX - 64 };
+                let base = mx.max(sw.key_domain);
+                if base >= cap {
+                    // the column already holds an extreme: take an unused mid-range value
+                    Val::Int(1_000 + self.next_long as i64 * 7 + pending.len() as i64)
+                } else {
+                    Val::Int(base + 1 + pending.len() as i64)
+                }
             }
             Ty::Text => {
                 self.next_long += 1;
@@ -612,8 +622,8 @@ impl Gen {
             if saves > 0 { w.release } else { 0 },
             if !any_txn { w.checkpoint } else { 0 },
             if !any_txn { w.pragma_checkpoint } else { 0 },
-            if !any_txn { w.close_reopen } else { w.close_reopen / 4 },
-            if !any_txn { w.drop_reopen } else { w.drop_reopen / 4 },
+            if !any_txn { w.close_reopen } else { w.reopen_in_txn },
+            if !any_txn { w.drop_reopen } else { w.reopen_in_txn },
             w.bulk,
             w.fault,
         ];
@@ -925,6 +935,7 @@ pub fn swarm_for(profile: &str, rng: &mut Rng, thorough: bool) -> Swarm {
             sw.w.savepoint = 8;
             sw.w.rollback_to = 8;
             sw.w.release = 3;
+            sw.w.reopen_in_txn = 2;
             sw.p_unique = 25;
             sw.w.create_index = 4;
         }
@@ -983,7 +994,6 @@ pub fn swarm_for(profile: &str, rng: &mut Rng, thorough: bool) -> Swarm {
             sw.w.close_reopen = 3;
             sw.w.drop_reopen = 2;
             sw.w.checkpoint = 1;
-            sw.w.bulk = if rng.chance(1, 2) { 3 } else { 0 };
         }
         "ddl" => {
             sw.w.create_table = 8;
@@ -1004,6 +1014,7 @@ pub fn swarm_for(profile: &str, rng: &mut Rng, thorough: bool) -> Swarm {
             sw.w.close_reopen = 8;
             sw.w.drop_reopen = 5;
             sw.w.create_index = 4;
+            sw.w.truncate = if rng.chance(1, 3) { 2 } else { 0 };
             sw.p_autoinc = 25;
             if rng.chance(1, 2) {
                 sw.cfg.checkpoint_threshold = Some(rng.range(2, 12) as u32);
